@@ -328,6 +328,8 @@ C12_AtMostOnce(s, e) ==
     /\ (IsW(e) /\ D(s, e.obj).k \in {"plan", "blk", "seq", "act"} /\ e.obj \in s.termW) => Terminal(e.st)
 C12_SecondStartRejected(s, e) == (e.ev = "StartRet" /\ e.after) => ~e.ok
 C12_StaleRejected(s, e) == (e.ev = "StartRet" /\ e.stale) => ~e.ok
+\* the number of Start calls of one step that returned nil is what spec/Api.tla says it must be
+C12_StartVerdict(s, e) == e.ev = "ApiCheck" => e.got = e.expected
 C12_NoDeath(s, e) == e.ev \in {"ProcDied", "Panic"} => FALSE
 \* a rejected call has no side effects: in particular Wait still returns afterwards
 C12_NoHang(s, e) == (e.ev = "Hang" /\ s.cfg.mode = "api") => FALSE
@@ -346,7 +348,7 @@ ClauseNames == {
     "C10_Terminates", "C10_Terminal", "C10_NothingRunning", "C10_Quiescent", "C10_Stable", "C10_Consistent", "C10_Times",
     "C10_DeferredRan", "C10_SameOutcome",
     "C11_Untouched", "C11_AgedOut", "C11_Resumed",
-    "C12_AtMostOnce", "C12_SecondStartRejected", "C12_StaleRejected", "C12_NoDeath", "C12_NoHang" }
+    "C12_AtMostOnce", "C12_SecondStartRejected", "C12_StaleRejected", "C12_StartVerdict", "C12_NoDeath", "C12_NoHang" }
 
 Holds(c, s, e) ==
     CASE c = "C01_BlockOrder" -> C01_BlockOrder(s, e) [] c = "C01_ActionOrder" -> C01_ActionOrder(s, e)
@@ -380,6 +382,7 @@ Holds(c, s, e) ==
       [] c = "C11_Resumed" -> C11_Resumed(s, e)
       [] c = "C12_AtMostOnce" -> C12_AtMostOnce(s, e) [] c = "C12_SecondStartRejected" -> C12_SecondStartRejected(s, e)
       [] c = "C12_StaleRejected" -> C12_StaleRejected(s, e)
+      [] c = "C12_StartVerdict" -> C12_StartVerdict(s, e)
       [] c = "C12_NoDeath" -> C12_NoDeath(s, e) [] c = "C12_NoHang" -> C12_NoHang(s, e)
 
 Violated(s, e) == {c \in ClauseNames : ~Holds(c, s, e)}
@@ -406,6 +409,7 @@ ClausesFor(t) ==
     [] t = "HoldTimeout" -> {"C07_ContKeepsRunning"}
     [] t = "StartRet" -> {"C12_SecondStartRejected", "C12_StaleRejected"}
     [] t \in {"ProcDied", "Panic"} -> {"C12_NoDeath"}
+    [] t = "ApiCheck" -> {"C12_StartVerdict"}
     [] OTHER -> {}
 ViolatedFast(s, e) == {c \in ClausesFor(e.ev) : ~Holds(c, s, e)}
 
